@@ -75,6 +75,9 @@ func (e event) String() string {
 	if e.kind == "resize" {
 		return "resize(r1: W<->2W)"
 	}
+	if e.kind == "burst" {
+		return "burst(r2: as many new groups again as the start state tracks)"
+	}
 	return "tick(" + e.tick + ")"
 }
 
@@ -90,7 +93,7 @@ func alphabet(c cfg) []event {
 		}
 	}
 	if c.Prefill > 0 {
-		ev = []event{{kind: "req", remedy: 0, group: "A"}, {kind: "req", remedy: 0, group: "Z"}, {kind: "req", remedy: 1, group: freshGroup},
+		ev = []event{{kind: "req", remedy: 0, group: "A"}, {kind: "req", remedy: 1, group: freshGroup}, {kind: "burst"},
 			{kind: "tick", tick: "61m"}, {kind: "tick", tick: "boundary"}}
 		return ev
 	}
@@ -185,6 +188,16 @@ func (m *model) prefill() {
 func (m *model) Apply(ei int) string { return m.apply(m.alpha[ei]) }
 
 func (m *model) apply(e event) string {
+	if e.kind == "burst" {
+		// as many requests of groups never seen before as the start state tracks (the number
+		// of tracked keys doubles): each is checked like any other request
+		for i := 0; i < m.c.Prefill; i++ {
+			if fail := m.apply(event{kind: "req", remedy: 1, group: freshGroup}); fail != "" {
+				return fail
+			}
+		}
+		return ""
+	}
 	if e.kind == "tick" {
 		var d time.Duration
 		switch e.tick {
